@@ -384,6 +384,12 @@ def generated_memoize_snaps(methods: Dict[str, ast.FunctionDef], res: Result, ru
                 continue
             if isinstance(a, ast.Compare) and any(isinstance(c, ast.Call) and call_name(c) == "abs" for c in ast.walk(a)):
                 continue
+            # a test on the time itself, on what was just computed from it, or on the kind of dt / starttime chooses between ways of
+            # snapping; what must not decide is state kept on the object besides dt and starttime (a flag worked out earlier)
+            other_state = [x for x in ast.walk(a) if isinstance(x, ast.Attribute) and isinstance(x.value, ast.Name) and x.value.id == "self"
+                           and x.attr not in ("dt", "starttime")]
+            if not other_state:
+                continue
             extra.append("%s is %s" % (txt, t))
         res.check(rule, "the snapping runs for every float time", not extra, "%s (template)" % JINJA, "jinja:simulation_model.memoize", "; ".join(extra)[:100] or src(st)[:80],
                   "the generated memoize() snaps times onto the grid only when %s: whenever that does not hold for the dt and start time a run "
